@@ -426,6 +426,14 @@ def parse_output(out, module, instances, ncalls, script, rundir, keep_mem=False)
     return rs, per_call, done
 
 
+def has_shared_memory(module):
+    try:
+        return any(getattr(l, "shared", False) for l in module.mems) or \
+            any(i.kind == "memory" and getattr(i.desc, "shared", False) for i in module.imports)
+    except Exception:
+        return False
+
+
 def run_real_multi(repo_copy, workdir, w2c2_exe, module, script, imports_spec=None, instances=1, w2c2_opts=(),
                    cc="gcc", copts=("-O1",), sanitize=False, name="m", timeout=20, keep_mem=False, wasm_bytes=None,
                    translated=None, keep=False, init_dump=False):
@@ -433,6 +441,8 @@ def run_real_multi(repo_copy, workdir, w2c2_exe, module, script, imports_spec=No
     `results` of instance k are those of its own calls, in order."""
     tr = translated or translate(w2c2_exe, workdir, name, wasm_bytes if wasm_bytes is not None else encode(module), w2c2_opts)
     rs = [RealResult() for _ in range(instances)]
+    if has_shared_memory(module) and not any("WASM_THREADS" in o for o in copts):
+        copts = tuple(copts) + ("-DWASM_THREADS_PTHREADS", "-pthread")       # shared memories need a threads implementation
 
     def fail(kind, msg, cmd=None):
         for r in rs:
